@@ -230,10 +230,21 @@ func H_C11(k, vocab int) {
 	}
 }
 
+// Seeds11 are further programs for the traversal: parentheses directly inside
+// every bracket kind (subscripts, call arguments, in-lists, nested parentheses).
+var Seeds11 = [][]string{
+	{"T", "|", "where", "a", "[", "(", "b", ")", "]", "==", "1", "and", "f", "(", "(", "a", ")", ")", "[", "(", "(", "1", ")", ")", "]", "in", "(", "(", "1", ")", ",", "(", "b", ")", "[", "(", "'s'", ")", "]", ")", "|", "project", "b", "=", "(", "a", "[", "(", "'s'", ")", "]", ")"},
+}
+
 // H_C11seed checks the traversal on the seed programs and their accepted corruptions.
 func H_C11seed(s, n int) {
 	vocab := Vocab(0)
-	seed := Seeds[s]
+	var seed []string
+	if s < len(Seeds) {
+		seed = Seeds[s]
+	} else {
+		seed = Seeds11[s-len(Seeds)]
+	}
 	slots := make([]int, len(seed))
 	for i, l := range seed {
 		slots[i] = vocabIndex(vocab, l)
